@@ -30,7 +30,9 @@ func (c *C) Choose(site string, n int) int {
 	}
 	c.Trace = append(c.Trace, v)
 	c.Ns = append(c.Ns, n)
-	c.Sites = append(c.Sites, site)
+	if site != "" { // hot paths (scheduling points) pass "" and skip the site log
+		c.Sites = append(c.Sites, site)
+	}
 	return v
 }
 
